@@ -1,7 +1,7 @@
 #!/bin/sh
 # dev helper: run the scenario battery of property $2 (default: same id) on a scratch copy with seeded change $1 applied
 id=$1; pid=${2:-$1}
-rm -rf /tmp/sc_test && mkdir -p /tmp/sc_test/asynq && cp /repo/asynq/*.py /tmp/sc_test/asynq/
+rm -rf /tmp/sc_test && mkdir -p /tmp/sc_test && git -C /repo archive HEAD asynq | tar -x -C /tmp/sc_test
 cd /tmp/sc_test && patch -s -p1 < /verif/seeded/$id/patch.diff || exit 2
 PYTHONPATH=/tmp/sc_test /venv/bin/python /verif/replay/battery.py $pid 2>/dev/null | tail -1 | python3 -c "
 import sys, json
